@@ -349,7 +349,7 @@ def build():
         return c
 
     p.add(with_summary(Contract(
-        PAR, "Parallel.dispatch_next", props=["C01", "C09"],
+        PAR, "Parallel.dispatch_next", props=["C01", "C09", "C04"],
         params=dict(self=parallel(_original_iterator=OpaqueOf("taskiter"))),
         ensures={"uses_the_original_iterator": "n_events('dispatch_one_batch') == 1 and ev_named('dispatch_one_batch')[0][1] is old(self._original_iterator)",
                  "stops_iterating_when_exhausted": "implies(not last_dispatch(), self._iterating is False and self._original_iterator is None)",
@@ -357,7 +357,7 @@ def build():
     )))
     p.spec_funcs["last_dispatch"] = lambda interp: interp.ctx.ghost["D1B_RESULTS"][-1]
     p.add(with_summary(Contract(
-        PAR, "Parallel._start", props=["C01", "C09"],
+        PAR, "Parallel._start", props=["C01", "C09", "C04"],
         params=dict(self=parallel(_original_iterator=Opt(OpaqueOf("taskiter"))), iterator=OpaqueOf("limited"), pre_dispatch=OneOf("all", INT)),
         ensures={"dispatches_until_the_slice_is_exhausted": "last_dispatch() is_false" if False else "not_true(last_dispatch())",
                  "all_means_no_lazy_dispatch_left": "implies(pre_dispatch == 'all', self._iterating is False)",
